@@ -1061,9 +1061,13 @@ fn add_new_mapping(state: &mut State, new_key: &KeyCode, m: &Mapping) -> (res: S
     j1(*old(state)),
     //@  | frame / auxiliary
     m.from@.len() >= 1,
+    //@ C11 C09 | repeat parameters are non-negative (the event loop turns them into Durations)
+    repeat_ok(m.repeat),
     //@ C01 C02 | inclusion invariant J (every held output key is justified by what is pressed)
     nonempty_from(old(state).active_mappings@),
   ensures
+    //@ C11 C09 | repeat parameters are non-negative (the event loop turns them into Durations)
+    rrepeat_ok(res.repeat),
     //@ C19 | bookkeeping equals the fold of the emitted events; no redundant press or release
     wf(*final(state)),
     //@ C01 C02 | inclusion invariant J (every held output key is justified by what is pressed)
@@ -1338,16 +1342,27 @@ spec fn repeat_matches(r: Repeat, rr: ResultingRepeat) -> bool {
   }
 }
 
+// repeat parameters the event loop can turn into a Duration: non-negative milliseconds, no key twice in the chord
+pub open spec fn repeatv_ok(r: RepeatV) -> bool {
+  match r { RepeatV::Special { keys, delay_ms, interval_ms } => delay_ms >= 0 && interval_ms >= 0 && keys.no_duplicates(), _ => true }
+}
+pub open spec fn repeat_ok(r: Repeat) -> bool { repeatv_ok(rview(r)) }
+pub open spec fn rrepeat_ok(r: ResultingRepeat) -> bool {
+  match r { ResultingRepeat::Repeating { keys, delay_ms, interval_ms } => delay_ms >= 0 && interval_ms >= 0 && keys@.no_duplicates(), _ => true }
+}
+// what the mapper needs of a grouped mapping
+spec fn gm_ok(m: Mapping) -> bool { m.from@.len() >= 1 && repeat_ok(m.repeat) }
+
 spec fn hl_ok(h: HashedLayout) -> bool {
-  forall|k: KeyCode, j: int| h.mappings@.contains_key(k) && 0 <= j < h.mappings@[k]@.len() ==> (#[trigger] h.mappings@[k]@[j]).from@.len() >= 1
+  forall|k: KeyCode, j: int| h.mappings@.contains_key(k) && 0 <= j < h.mappings@[k]@.len() ==> gm_ok(#[trigger] h.mappings@[k]@[j])
 }
 
 spec fn hm_ok(hm: Map<KeyCode, Vec<Mapping>>) -> bool {
-  forall|k: KeyCode, j: int| hm.contains_key(k) && 0 <= j < hm[k]@.len() ==> (#[trigger] hm[k]@[j]).from@.len() >= 1
+  forall|k: KeyCode, j: int| hm.contains_key(k) && 0 <= j < hm[k]@.len() ==> gm_ok(#[trigger] hm[k]@[j])
 }
 
 pub open spec fn mapping_ok(m: Mapping) -> bool {
-  m.from@.len() >= 1 && m.from@.no_duplicates() && m.to@.no_duplicates()
+  m.from@.len() >= 1 && m.from@.no_duplicates() && m.to@.no_duplicates() && repeat_ok(m.repeat)
 }
 
 pub open spec fn layout_ok(l: Layout) -> bool {
@@ -1476,7 +1491,7 @@ fn make_hashed_layout(layout: &Layout) -> (h: HashedLayout)
     }
     proof {
       if hm0.contains_key(last) { axiom_borrowed_key_updated_deref::<KeyCode, Vec<Mapping>>(hm0, mappings@, &last, vfin.unwrap()); }
-      assert forall|k: KeyCode, j: int| mappings@.contains_key(k) && 0 <= j < mappings@[k]@.len() implies (#[trigger] mappings@[k]@[j]).from@.len() >= 1 by {
+      assert forall|k: KeyCode, j: int| mappings@.contains_key(k) && 0 <= j < mappings@[k]@.len() implies gm_ok(#[trigger] mappings@[k]@[j]) by {
         if k == last {
           if hm0.contains_key(last) { if j < hm0[last]@.len() { assert(mappings@[k]@[j] == hm0[k]@[j]); } }
         } else { assert(mappings@[k] == hm0[k]); }
@@ -1861,6 +1876,8 @@ fn newly_press(mapper: &mut Mapper, k: KeyCode) -> (res: StepResult)
         final(mapper).state.active_mappings@.len() >= 1 && mview(final(mapper).state.active_mappings@.last()) == mview(#[trigger] group(old(mapper).layout, k)[i])
         && repeat_matches(group(old(mapper).layout, k)[i].repeat, res.repeat),
     none_fired(group(old(mapper).layout, k), old(mapper).state, k) ==> res.repeat is Disabled,
+    //@ C11 C09 | repeat parameters are non-negative (the event loop turns them into Durations)
+    rrepeat_ok(res.repeat),
   { //@ | body
   hide(j4); hide(j6); hide(nonempty_from); hide(from_in); hide(am_sub); hide(sup);
   let mappings = &mapper.layout.mappings;
@@ -1907,7 +1924,7 @@ fn newly_press(mapper: &mut Mapper, k: KeyCode) -> (res: StepResult)
   broadcast use vstd::std_specs::hash::group_hash_axioms;
   let ghost hmap = mappings@;
   if let Some(mappings) = mappings.get(&k) {
-    proof { assert(g == mappings@); assert(hmap.contains_key(k) && hmap[k] == *mappings); assert forall|j: int| 0 <= j < mappings@.len() implies (#[trigger] mappings@[j]).from@.len() >= 1 by {} }
+    proof { assert(g == mappings@); assert(hmap.contains_key(k) && hmap[k] == *mappings); assert forall|j: int| 0 <= j < mappings@.len() implies gm_ok(#[trigger] mappings@[j]) by {} }
     let should_absorb = {
       match &state.absorbing_trigger {
         Some(absorbing_trigger) => *absorbing_trigger != k,
@@ -1944,7 +1961,7 @@ fn newly_press(mapper: &mut Mapper, k: KeyCode) -> (res: StepResult)
         //@  | frame / auxiliary
         it.seq().len() == mappings@.len(),
         forall|j: int| 0 <= j < mappings@.len() ==> *it.seq()[j] == mappings@[mappings@.len() - 1 - j],
-        forall|j: int| 0 <= j < mappings@.len() ==> (#[trigger] mappings@[j]).from@.len() >= 1,
+        forall|j: int| 0 <= j < mappings@.len() ==> gm_ok(#[trigger] mappings@[j]),
         //@ C01 C02 | inclusion invariant J (every held output key is justified by what is pressed)
         nonempty_from(state.active_mappings@),
         j2(*state),
@@ -1965,6 +1982,7 @@ fn newly_press(mapper: &mut Mapper, k: KeyCode) -> (res: StepResult)
         apply(h0, res.events@) == Some(held(*state)),
         //@ C09 | repeat request
         !(res.repeat is NoChange),
+        rrepeat_ok(res.repeat),
         //@ C01 C02 | inclusion invariant J (every held output key is justified by what is pressed)
         j1(*state),
       ensures
@@ -2015,6 +2033,7 @@ fn newly_press(mapper: &mut Mapper, k: KeyCode) -> (res: StepResult)
         apply(h0, res.events@) == Some(held(*state)),
         //@ C09 | repeat request
         !(res.repeat is NoChange),
+        rrepeat_ok(res.repeat),
         //@ C01 C02 | inclusion invariant J (every held output key is justified by what is pressed)
         j1(*state),
         j2(*state),
@@ -2146,6 +2165,8 @@ impl Mapper {
       //@ C09 | repeat request
       (res.repeat is NoChange) <==> (match input { Event::Pressed(k) => old(self).pressed_view().contains(k), Event::Released(k) => !old(self).pressed_view().contains(k) }),
       (res.repeat is NoChange) ==> res.events@.len() == 0 && *final(self) == *old(self),
+      //@ C11 C09 | repeat parameters are non-negative (the event loop turns them into Durations)
+      rrepeat_ok(res.repeat),
       //@ C01 C02 C09 | effect of the call on the list of keys considered pressed
       match input { Event::Pressed(k) => forall|x: KeyCode| #[trigger] final(self).pressed_view().contains(x) ==> old(self).pressed_view().contains(x) || x == k,
                     Event::Released(k) => !final(self).pressed_view().contains(k) && forall|x: KeyCode| #[trigger] final(self).pressed_view().contains(x) ==> old(self).pressed_view().contains(x) },
@@ -2181,6 +2202,15 @@ impl Mapper {
         }
       }
     }
+  }
+  
+  pub fn is_held_on_output(self: &Mapper, k: &KeyCode) -> (r: bool)
+    ensures
+      //@ C11 C19 | the accessor answers exactly the mapper's record of what is down on the virtual keyboard
+      r == self.held_view().contains(*k),
+    { //@ | body
+    proof { lemma_ts(self.state.pass_through_keys@, *k); lemma_ts(self.state.mapped_output_keys@, *k); }
+    self.state.pass_through_keys.contains(k) || self.state.mapped_output_keys.contains(k)
   }
   
   pub fn release_all(self: &mut Mapper) -> (events: Vec<Event>)
